@@ -27,7 +27,7 @@ P = {
  "C20": (MC, "lockmc(loom+shuttle)", "the repository's lock source, token-rewritten onto loom/shuttle primitives at build time, explored exhaustively: 2..4 threads x 1..2 applies x 1..2 locks under loom (DPOR), 2..16 threads under shuttle with an own preemption-bounded DFS scheduler; lost/torn update, return value and deadlock oracles in every execution", "4 C20", "loom's and shuttle's Mutex model std::sync::Mutex; poisoning is documented behaviour", "exhaustive interleaving exploration (loom DPOR; shuttle + bounded DFS) of the real lock source"),
 }
 
-CLAIMED = ["C01", "C02", "C03", "C04", "C05", "C06", "C07", "C08", "C09", "C10", "C11", "C12", "C13", "C14", "C15", "C16", "C19", "C20"]
+CLAIMED = ["C01", "C02", "C03", "C04", "C05", "C06", "C07", "C08", "C09", "C10", "C11", "C12", "C13", "C14", "C15", "C16", "C17", "C18", "C19", "C20"]
 
 def main():
     head = subprocess.run(["git","-C","/repo","log","--format=%H %s"],capture_output=True,text=True).stdout.strip().splitlines()
